@@ -1,6 +1,7 @@
 SPECIFICATION Spec
 CONSTANTS
   Vals <- Sym2
+  OnlyReversals = FALSE
   MaxLen = 6
   Scale = 2
   LawId = "cubic"
